@@ -70,7 +70,6 @@ func yslow(id int) {
 		return
 	}
 	SiteHits[id]++
-	s.prog++
 	if s.budget > 0 {
 		s.budget--
 		if s.budget == 0 {
